@@ -217,10 +217,11 @@ def render_program(prog, layout, rng):
         decl = [d + " /* after ; */" for d in decl]
     lines.append(f"module {prog['name']}{sp}({sp}" + f"{sp},{sp}".join(ident(p) for p in ports) + f"{sp});")
     if comments:
-        lines.append("// generated netlist: declarations")
+        # a line comment may contain `/*` (it opens nothing) and a block comment may contain `//` (it does not hide the `*/`)
+        lines.append("// generated netlist: declarations /* this is still a line comment" if layout % 16 >= 8 else "// generated netlist: declarations")
     lines += ["  " + d for d in decl]
     if comments:
-        lines.append("/* body\n   follows */")
+        lines.append("/* body\n   follows // not a line comment */" if layout % 16 >= 8 or layout % 8 == 4 else "/* body\n   follows */")
     lines += ["  " + b for b in body]
     lines.append("endmodule")
     return nl.join(lines) + "\n"
